@@ -29,3 +29,6 @@ import DateutilVerif.Properties.TzGen   -- translator tie (wt-iso): obligations 
 #print axioms C04.roundtrip_gen
 #print axioms C04.gen_eq_model_tzinfo_fromutc
 #print axioms C04.gen_eq_model_tzlocal_utcoffset
+#print axioms C04.gen_eq_model_validate_fromutc_inputs
+#print axioms C04.gen_eq_model_fromutc_decorated
+#print axioms C04.gen_eq_model_tzfile_fromutc_decorated
